@@ -282,7 +282,7 @@ func cmdCheck(args []string) int {
 		for k, l := range c.Loops {
 			if c.bound && !l.seen && executed[c.Func] && oosFuncs[c.Func] == "" {
 				if fi := p.Funcs[c.Func]; fi != nil && (*only == "" || *only == c.Func) {
-					p.BindErrors = append(p.BindErrors, fmt.Sprintf("%s: loop %d of the contract has no loop in the code", c.Func, k))
+					p.bindProblem(c.Func, fmt.Sprintf("%s: loop %d of the contract (%s) has no loop in the code", c.Func, k, l.Header))
 				}
 			}
 		}
@@ -339,6 +339,7 @@ func cmdCheck(args []string) int {
 	var samples []any
 	var solverMs int64
 	seen := map[string]bool{}
+	bindUndecided := map[string][]string{}
 	var newExpected []string
 	for _, it := range items {
 		ob := it.ob
@@ -388,8 +389,16 @@ func cmdCheck(args []string) int {
 				}
 			} else if haveExpected {
 				path := writeReplay(replayDir, *prop, ob, p)
+				confirmed := replayConfirmed(path)
+				if len(p.BindByFunc[ob.Func]) > 0 && !confirmed {
+					// the contract of this function no longer fits its code (a loop was restructured, a local renamed): the
+					// failed proof says nothing about the property. Undecided; the check ends with status 2, not with a violation
+					bindUndecided[ob.Func] = append(bindUndecided[ob.Func], ob.Name)
+					undecided = append(undecided, ob.Name)
+					continue
+				}
 				suffix := ""
-				if !replayConfirmed(path) {
+				if !confirmed {
 					suffix = " no-failing-input-found"
 				}
 				violations = append(violations, fmt.Sprintf("VIOLATION property=%s replay=%s%s", *prop, path, suffix))
@@ -463,6 +472,20 @@ func cmdCheck(args []string) int {
 		os.MkdirAll(filepath.Join(verifDir, "obligations", "expected"), 0755)
 		os.WriteFile(filepath.Join(verifDir, "obligations", "expected", *prop+".txt"), []byte(strings.Join(newExpected, "\n")+"\n"), 0644)
 		fmt.Printf("expected list rewritten: %d obligations\n", len(newExpected))
+	}
+	// binding problems: an error (status 2) only where an obligation of that function could not be established
+	for _, fn := range sortedKeys(p.BindByFunc) {
+		word := "NOTE contract-binding"
+		if len(bindUndecided[fn]) > 0 {
+			word = "ERROR contract-binding"
+			bindErr = true
+		}
+		for _, m := range p.BindByFunc[fn] {
+			fmt.Println(word, m)
+		}
+		for _, o := range bindUndecided[fn] {
+			fmt.Printf("UNDECIDED %s (the contract of %s does not bind to the changed code)\n", o, fn)
+		}
 	}
 	for _, v := range violations {
 		fmt.Println(v)
